@@ -101,7 +101,7 @@ pub(crate) fn apply(w: &mut IdmServerProxyWriteTransaction<'_>, k: usize, fail_m
     let q = &mut w.qs_write;
     let all = k == 7;
     // operation boundary: the caller may abandon the transaction after the n-th operation
-    let mut boundary = |done: &mut usize| -> Result<(), OperationError> {
+    let boundary = |done: &mut usize| -> Result<(), OperationError> {
         *done += 1;
         if Some(*done) == stop_after {
             Err(OperationError::InvalidState)
@@ -364,7 +364,7 @@ fn run_case(tpl: &Path, dir: &Path, k: usize, how: How, baseline_fresh: &str, co
 
 pub fn run(args: &[String]) -> ! {
     let mut ctx = Ctx::new("C04", Level::FaultEnumeration, args);
-    let dir = ctx.scratch_dir();
+    let dir = ctx.scratch_dir_fast();
     let tpl = dir.join("template.db");
     if let Err(e) = fork_eval(|| make_template(&tpl).err().unwrap_or_default()).and_then(|s| if s.is_empty() { Ok(()) } else { Err(s) }) {
         kv_engine::ctx::machinery_exit(&format!("C04 template: {e}"));
